@@ -44,31 +44,41 @@ def load_baseline():
 
 
 def match_known(known, prop, oid, labels):
-    """open findings that cover a failing obligation (by obligation id and failing clause label)"""
+    """open findings that cover a failing obligation: by obligation id (or regex over ids) and by the failing
+    clause labels, all of which must be listed (exactly, or by prefix)"""
+    import re
     out = []
     for k in known:
         if k.get('status', 'open') != 'open':
             continue
-        if oid != k['obligation']:
+        if 'obligation_regex' in k:
+            if not re.fullmatch(k['obligation_regex'], oid):
+                continue
+        elif oid != k['obligation']:
             continue
         if k.get('labels') and not (set(labels) <= set(k['labels'])):
+            continue
+        if k.get('label_prefixes') and not all(any(l.startswith(p) for p in k['label_prefixes']) for l in labels):
             continue
         out.append(k)
     return out
 
 
+OUT = os.environ.get('VERIF_OUT') or ROOT     # scratch output root for runs against patched copies of the repo
+
+
 def write_replay(prop, r, kind, extra=None):
-    d = os.path.join(ROOT, 'replays', prop)
+    d = os.path.join(OUT, 'replays', prop)
     os.makedirs(d, exist_ok=True)
     safe = r['oid'].replace('/', '_').replace('[', '.').replace(']', '').replace('+', 'p')
     path = os.path.join(d, safe + '.json')
     doc = dict(property=prop, obligation=r['oid'], module=r['module'], cls=r['cls'], grid=r['grid'], kind=kind,
                cex=r.get('cex'), bounded=r.get('bounded'), solver=r.get('error'), results=[x for x in r['results'] if x[1] != 'proved'][:20],
-               how_to_replay='bin/vcheck %s --replay %s' % (prop, os.path.relpath(path, ROOT)))
+               how_to_replay='bin/vcheck %s --replay %s' % (prop, os.path.relpath(path, OUT)))
     if extra:
         doc.update(extra)
     json.dump(doc, open(path, 'w'), indent=1, default=str)
-    return os.path.relpath(path, ROOT)
+    return os.path.relpath(path, OUT)
 
 
 def do_replay(path):
@@ -108,7 +118,7 @@ def main(argv=None):
     a = ap.parse_args(argv)
     prop = a.prop
     if a.replay:
-        return do_replay(a.replay if os.path.isabs(a.replay) else os.path.join(ROOT, a.replay))
+        return do_replay(a.replay if os.path.isabs(a.replay) else os.path.join(OUT, a.replay))
     seed = int(os.environ.get('VERIF_SEED', '0') or 0)
     tier = a.tier if a.tier in ('quick', 'thorough') else 'quick'
     t0 = time.time()
@@ -197,7 +207,7 @@ def main(argv=None):
     # stale known findings (listed, but no longer failing) are reported, never fatal
     for k in known:
         if k.get('status', 'open') == 'open' and prop in k.get('properties', []) and k['key'] not in kf_reproduced:
-            if any(r['oid'] == k['obligation'] for r in res):
+            if any(r['oid'] == k.get('obligation') for r in res):
                 print('STALE-KNOWN-FINDING: property=%s %s no longer fails (%s)' % (prop, k['obligation'], k['key']))
 
     for name, ok, detail in extra_checks:
@@ -237,8 +247,8 @@ def main(argv=None):
     ev = dict(property_id=prop, tier=tier, seed=seed, level=level, coverage=cov,
               assumptions=[ASSUMPTIONS[k] for k in getattr(pm, 'TRUSTED', ['A1', 'A2', 'A5', 'A6', 'UF'])] + getattr(pm, 'EXTRA_ASSUMPTIONS', []),
               wall_s=round(wall, 2), violations=len(viol))
-    os.makedirs(os.path.join(ROOT, 'evidence'), exist_ok=True)
-    json.dump(ev, open(os.path.join(ROOT, 'evidence', prop + '.json'), 'w'), indent=1)
+    os.makedirs(os.path.join(OUT, 'evidence'), exist_ok=True)
+    json.dump(ev, open(os.path.join(OUT, 'evidence', prop + '.json'), 'w'), indent=1)
     if a.freeze_baseline:
         os.makedirs(os.path.join(ROOT, 'baseline'), exist_ok=True)
         for r in res:
